@@ -717,10 +717,10 @@ def run_histories(ctx, cases, stage="correspond"):
                   bucket="history/" + c.get("stream", "replay"))
         # tie: some variant of the trajectory model reproduces the run (the variants differ only in the RMSD cache)
         try:
-            ds = [T.compare(w[v], im) for v in range(4)]
+            ds = [T.compare(w[v], im) for v in range(T.NVAR)]
         except (KeyError, IndexError, ValueError) as e:
-            ds = [["model output cannot be evaluated: %s" % e]] * 4
-        v = min(range(4), key=lambda i: len(ds[i]))
+            ds = [["model output cannot be evaluated: %s" % e]] * T.NVAR
+        v = min(range(T.NVAR), key=lambda i: len(ds[i]))
         d = list(ds[v])
         if not d:
             for ri, (mt, it) in enumerate(zip(w[v]["trajs"], im["regs"])):
